@@ -269,7 +269,7 @@ def worker(acc, shard, nshards, tier, seed):
         r, c = len(case['s1']), len(case['s2'])
         acc.case(sub, nontrivial=bool(r > 1 and c > 1 and (case.get('penalty') or case.get('psi') or case.get('window'))))
         acc.outcome(exp)
-        if acc.states % 20011 == 1:
+        if not acc.samples or acc.states % 20011 == 1:
             acc.sample(case)
 
 
